@@ -97,16 +97,57 @@ Lemma race_refuted :
 Proof. vm_compute. split; [reflexivity|discriminate]. Qed.
 
 (* 5. serialised imports (either order) keep the invariant *)
+Section Steps.
+  Variables (hk : conf) (sH sU : nat).
+  Lemma step_H0 x up hp upth fh fu ul :
+    step hk sH sU true {| g := x; h_pc := 0; u_pc := up; h_path := hp; u_path := upth; fs_h := fh; fs_u := fu; u_loaded := ul |}
+    = {| g := GBear; h_pc := 1; u_pc := up; h_path := hp; u_path := upth; fs_h := fh; fs_u := fu; u_loaded := ul |}.
+  Proof. reflexivity. Qed.
+  Lemma step_H1 x up hp upth fh fu ul :
+    step hk sH sU true {| g := x; h_pc := 1; u_pc := up; h_path := hp; u_path := upth; fs_h := fh; fs_u := fu; u_loaded := ul |}
+    = {| g := x; h_pc := 2; u_pc := up; h_path := Some (path_of x); u_path := upth; fs_h := fh; fs_u := fu; u_loaded := ul |}.
+  Proof. reflexivity. Qed.
+  Lemma step_H2 x up m upth fh fu ul :
+    step hk sH sU true {| g := x; h_pc := 2; u_pc := up; h_path := Some m; u_path := upth; fs_h := fh; fs_u := fu; u_loaded := ul |}
+    = {| g := x; h_pc := 3; u_pc := up; h_path := Some m; u_path := upth; fs_h := fst (load_via m (Some hk) sH fh); fs_u := fu; u_loaded := ul |}.
+  Proof. reflexivity. Qed.
+  Lemma step_H3 x up hp upth fh fu ul :
+    step hk sH sU true {| g := x; h_pc := 3; u_pc := up; h_path := hp; u_path := upth; fs_h := fh; fs_u := fu; u_loaded := ul |}
+    = {| g := GOrig; h_pc := 4; u_pc := up; h_path := hp; u_path := upth; fs_h := fh; fs_u := fu; u_loaded := ul |}.
+  Proof. reflexivity. Qed.
+  Lemma step_U0 x hpc hp upth fh fu ul :
+    step hk sH sU false {| g := x; h_pc := hpc; u_pc := 0; h_path := hp; u_path := upth; fs_h := fh; fs_u := fu; u_loaded := ul |}
+    = {| g := x; h_pc := hpc; u_pc := 1; h_path := hp; u_path := Some (path_of x); fs_h := fh; fs_u := fu; u_loaded := ul |}.
+  Proof. reflexivity. Qed.
+  Lemma step_U1 x hpc hp m fh fu ul :
+    step hk sH sU false {| g := x; h_pc := hpc; u_pc := 1; h_path := hp; u_path := Some m; fs_h := fh; fs_u := fu; u_loaded := ul |}
+    = {| g := x; h_pc := hpc; u_pc := 2; h_path := hp; u_path := Some m; fs_h := fh;
+         fs_u := fst (load_via m None sU fu); u_loaded := Some (snd (load_via m None sU fu)) |}.
+  Proof. cbn [step u_pc u_path fs_u]. destruct (load_via m None sU fu). reflexivity. Qed.
+End Steps.
+
 Theorem serial_imports_keep_inv hk srcH srcU fh fu :
   inv fh -> inv fu ->
   let s1 := crun hk srcH srcU [true; true; true; true; false; false] (cinit fh fu) in
   let s2 := crun hk srcH srcU [false; false; true; true; true; true] (cinit fh fu) in
   inv (fs_u s1) /\ inv (fs_h s1) /\ inv (fs_u s2) /\ inv (fs_h s2) /\ g s1 = GOrig /\ g s2 = GOrig.
 Proof.
-  intros Hh Hu. cbn [crun fold_left cinit step h_pc u_pc g h_path u_path fs_h fs_u path_of].
+  intros Hh Hu.
+  assert (E1 : crun hk srcH srcU [true; true; true; true; false; false] (cinit fh fu)
+               = {| g := GOrig; h_pc := 4; u_pc := 2; h_path := Some MBear; u_path := Some MPlain;
+                    fs_h := fst (load_via MBear (Some hk) srcH fh); fs_u := fst (load_via MPlain None srcU fu);
+                    u_loaded := Some (snd (load_via MPlain None srcU fu)) |}).
+  { unfold crun, cinit. cbn [fold_left].
+    rewrite step_H0, step_H1, step_H2, step_H3, step_U0, step_U1. reflexivity. }
+  assert (E2 : crun hk srcH srcU [false; false; true; true; true; true] (cinit fh fu)
+               = {| g := GOrig; h_pc := 4; u_pc := 2; h_path := Some MBear; u_path := Some MPlain;
+                    fs_h := fst (load_via MBear (Some hk) srcH fh); fs_u := fst (load_via MPlain None srcU fu);
+                    u_loaded := Some (snd (load_via MPlain None srcU fu)) |}).
+  { unfold crun, cinit. cbn [fold_left].
+    rewrite step_U0, step_U1, step_H0, step_H1, step_H2, step_H3. reflexivity. }
+  cbv zeta. rewrite E1, E2. cbn [fs_u fs_h g].
   pose proof (run1_inv fh (Some hk, srcH) Hh) as [Ih _].
   pose proof (run1_inv fu (None, srcU) Hu) as [Iu _].
   unfold run1, marker_of in Ih, Iu. cbn [fst snd] in Ih, Iu.
-  destruct (load_via MPlain None srcU fu) as [fu' cu] eqn:Eu. cbn [fst] in Iu.
-  cbn [fs_u fs_h g]. repeat split; auto.
+  split; [exact Iu|split; [exact Ih|split; [exact Iu|split; [exact Ih|split; reflexivity]]]].
 Qed.
